@@ -674,7 +674,7 @@ pub struct SchedStats {
 
 /// generate cases, enumerate (or sample) their interleavings, run each on the real code
 #[allow(clippy::type_complexity)]
-pub fn run_suite(profile: &str, seed: u64, count: u64, per_case: usize) -> (Vec<String>, Vec<String>, Vec<(usize, usize, Vec<&'static str>, String)>, SchedStats) {
+pub fn run_suite(profile: &str, seed: u64, count: u64, per_case: usize, mut trace: Option<std::fs::File>) -> (Vec<String>, Vec<String>, Vec<(usize, usize, Vec<&'static str>, String)>, SchedStats) {
     let mut master = Rng::new(seed ^ 0x5c4ed);
     let mut ops: Vec<String> = vec![];
     let mut outs: Vec<String> = vec![];
@@ -690,6 +690,18 @@ pub fn run_suite(profile: &str, seed: u64, count: u64, per_case: usize) -> (Vec<
         for sched in scheds {
             st.schedules += 1;
             let start = ops.len();
+            if let Some(f) = &mut trace {
+                use std::io::Write;
+                let _ = writeln!(f, "cnew 4096");
+                for l in case.setup.iter().skip(1) {
+                    let _ = writeln!(f, "{}", l);
+                }
+                for (i, p) in case.programs.iter().enumerate() {
+                    let _ = writeln!(f, "thread {} {}", i, hexes(p));
+                }
+                let _ = writeln!(f, "sched {}", sched.iter().map(|x| x.to_string()).collect::<Vec<_>>().join(" "));
+                let _ = f.flush();
+            }
             let mut r = SchedRunner::new();
             for l in &case.setup {
                 let (o, _) = r.exec(l);
